@@ -11,6 +11,7 @@ import Bourse.Model.Ops
 import Bourse.Lemmas.MatchFrame
 import Bourse.Lemmas.Reach
 import Bourse.Lemmas.RefineStep
+import Bourse.Lemmas.NoOverflow
 
 namespace Bourse.Props.C05
 open Bourse
@@ -176,5 +177,21 @@ theorem queues_are_reference_fifo (t0 tick : Nat) (trading : Bool) (ht : 0 < tic
     absq (((Book.new t0 tick trading).run ops).side sd) = (Ref.run (Ref.init t0 tick trading) ops).queue sd := by
   rw [← abs_queue, ← abs_new]
   exact congrArg (fun s => s.queue sd) (run_refines (inv_new t0 tick trading ht) ops hv hnf)
+
+/-- `queues_are_reference_fifo` and `ties_lose_nothing` for valid histories as the property states
+them — there is no clock hypothesis in `ValidHistory` either. -/
+theorem queues_are_reference_fifo_valid (t0 tick : Nat) (trading : Bool) (ops : List Op)
+    (h : ValidHistory t0 tick trading ops) (sd : Side) :
+    absq (((Book.new t0 tick trading).run ops).side sd) = (Ref.run (Ref.init t0 tick trading) ops).queue sd :=
+  queues_are_reference_fifo t0 tick trading h.tick_pos ops h.ops_valid h.noFault sd
+
+theorem ties_lose_nothing_valid (t0 tick : Nat) (trading : Bool) (ops : List Op)
+    (h : ValidHistory t0 tick trading ops) :
+    let b := (Book.new t0 tick trading).run ops
+    (∀ (id : Nat) (e : Entry), b.orders[id]? = some e → e.order.status = .active →
+        ((e.key.pk, e.key.st), id) ∈ (b.side e.order.side).orders) ∧
+    SMap.Sorted b.bid.orders ∧ SMap.Sorted b.ask.orders ∧
+    (∀ sd k k' id, (k, id) ∈ (b.side sd).orders → (k', id) ∈ (b.side sd).orders → k = k') :=
+  ties_lose_nothing t0 tick trading h.tick_pos ops h.ops_valid h.noFault
 
 end Bourse.Props.C05
